@@ -583,7 +583,7 @@ def _type_text(t, ind, ctx):
         items = [member_text(m, ind + 1, ctx) for m in t['root']]
         if t['ext'] is not None:
             items.append('...')
-            items += [member_text(m, ind + 1, ctx) for m in t['ext']]
+            items += grouped([member_text(m, ind + 1, ctx) for m in t['ext']], t.get('groups'))
         if not items:
             return 'SEQUENCE { }'
         return 'SEQUENCE {\n' + ',\n'.join(pad + '  ' + i for i in items) + '\n' + pad + '}'
@@ -591,7 +591,7 @@ def _type_text(t, ind, ctx):
         items = ['%s %s' % (n, type_text(at, ind + 1, ctx)) for n, at in t['root']]
         if t['ext'] is not None:
             items.append('...')
-            items += ['%s %s' % (n, type_text(at, ind + 1, ctx)) for n, at in t['ext']]
+            items += grouped(['%s %s' % (n, type_text(at, ind + 1, ctx)) for n, at in t['ext']], t.get('groups'))
         return 'CHOICE {\n' + ',\n'.join(pad + '  ' + i for i in items) + '\n' + pad + '}'
     raise ValueError(k)
 
@@ -600,6 +600,18 @@ def tag_text(tag):
     """tag = (class, number, mode) with class in ('', 'APPLICATION', 'PRIVATE', 'UNIVERSAL'), mode in ('', 'IMPLICIT', 'EXPLICIT')"""
     cls, num, mode = tag
     return '[%s%d] %s' % (cls + ' ' if cls else '', num, mode + ' ' if mode else '')
+
+
+def grouped(items, groups):
+    """wrap the runs items[i:j] for (i, j) in groups (disjoint, ascending) in version brackets [[ ... ]]"""
+    if not groups:
+        return items
+    out, pos = [], 0
+    for i, j in groups:
+        out += items[pos:i]
+        out.append('[[ ' + ', '.join(x.strip() for x in items[i:j]) + ' ]]')
+        pos = j
+    return out + items[pos:]
 
 
 def member_text(m, ind, ctx=None):
@@ -652,7 +664,7 @@ class Unmodelled(Exception):
 def is_modelled(t):
     """is the type inside the universe of the Lean models (Schema.lean)"""
     k = t['k']
-    if k in ('real', 'oid', 'set', 'setof') or t.get('serial'):
+    if k in ('real', 'oid', 'set', 'setof') or t.get('serial') or t.get('groups'):
         return False
     if k == 'seqof':
         return is_modelled(t['elem'])
